@@ -28,6 +28,9 @@ pub enum Edit {
     /// file/symlink -> directory with one file in it; directory -> file.
     SwapKind { idx: u16, pool: u8, len: u32 },
     Retarget { idx: u16, target: String },
+    /// A file disappears and a *different* file of the same name, length and mtime appears in
+    /// another directory (not a move: other content).
+    Impostor { idx: u16, dir: u16, pool: u8 },
     /// Change content keeping the length, the new mtime being the old one plus `dns`
     /// nanoseconds: a rewrite that lands in the same second, or a nanosecond later.
     Nudge { idx: u16, pool: u8, dns: u32 },
@@ -185,6 +188,20 @@ pub fn apply_edit(t: &mut Tree, e: &Edit) {
                 }
             }
         }
+        Edit::Impostor { idx, dir, pool } => {
+            let files: Vec<String> = non_root.iter().filter(|p| matches!(t.0[*p].kind, Kind::File { len, .. } if len > 0)).cloned().collect();
+            if let (Some(f), Some(d)) = (pick(&files, *idx).cloned(), pick(&dirs, *dir).cloned()) {
+                let to = tree::join(&d, tree::base_name(&f));
+                if to != f && !t.0.contains_key(&to) {
+                    let mut node = t.0.remove(&f).unwrap();
+                    if let Kind::File { pool: old, len } = node.kind {
+                        let np = if *pool == old { (old + 1) % 8 } else { *pool };
+                        node.kind = Kind::File { pool: np, len };
+                    }
+                    t.0.insert(to, node);
+                }
+            }
+        }
         Edit::Retarget { idx, target } => {
             let links: Vec<String> = non_root.iter().filter(|p| t.0[*p].is_link()).cloned().collect();
             if let Some(p) = pick(&links, *idx) {
@@ -240,6 +257,7 @@ pub fn edit_strategy(cfg: TreeCfg) -> BoxedStrategy<Edit> {
         1 => (idx, prop::sample::select(tree::UIDS), prop::sample::select(tree::GIDS))
             .prop_map(|(idx, uid, gid)| Edit::Chown { idx, uid, gid }),
         2 => (idx, 0u8..8, small_len).prop_map(|(idx, pool, len)| Edit::SwapKind { idx, pool, len }),
+        1 => (idx, any::<u16>(), 0u8..8).prop_map(|(idx, dir, pool)| Edit::Impostor { idx, dir, pool }),
         1 => (idx, tree::link_target_strategy()).prop_map(|(idx, target)| Edit::Retarget { idx, target }),
         1 => (idx, prop::sample::select(vec!["@RESPELL1@", "@RESPELL2@"])).prop_map(|(idx, t)| Edit::Retarget { idx, target: t.to_string() }),
     ]
